@@ -80,6 +80,7 @@ Judge(e) ==
        ELSE IF ~ConsistentA(Yc) THEN "consistent"
        ELSE "ok"
 
+\* (TLC's workers do not share the successors of one state; the harness shards the batch over several JVMs)
 Init == i = 0 /\ verdict = "init"
 Next == /\ i = 0
         /\ i' \in 1..Len(Batch)
